@@ -402,6 +402,44 @@ func Adversarial() []AdvSet {
 		add(advFD("adv_same_package", "two files generated into one Go package", ExpFiles, []string{"adv/samepkg_a.proto", "adv/samepkg_b.proto"}, b, a))
 	}
 	{
+		// four files of ONE Go package in a chain, every file's name sorting BEFORE the names of the files it imports (Go runs the
+		// init functions of a package in file-name order): alpha -> beta, gamma; beta -> gamma; and one that sorts after: omega -> alpha.
+		// Alpha uses beta's and gamma's messages and enums (top-level and nested) in every shape. Generated by one request, and
+		// file by file (per-file invocation mode of the gen engine), the assembled package must initialise and resolve every type.
+		gp := GenCheckBase + "adv_same_package_shapes"
+		pkg := ".adv.samepkgshapes"
+		gamma := File{Path: "adv/samepkg_shapes_gamma.proto", Package: pkg[1:], GoPackage: gp, Msgs: []M{{Name: "Gamma", Fields: []F{{Name: "g", Num: 1, Kind: String}, {Name: "k", Num: 2, Kind: Enum, TypeName: pkg + ".Gamma.GKind"}},
+			Nested: []M{{Name: "GIn", Fields: []F{{Name: "n", Num: 1, Kind: Sint64}}}}, Enums: []E{{Name: "GKind", Values: []EV{{"GKIND_ZERO", 0}, {"GKIND_ONE", 1}, {"GKIND_NEG", -3}}}}}},
+			Enums: []E{{Name: "GammaEnum", Values: []EV{{"GAMMA_ZERO", 0}, {"GAMMA_TWO", 2}}}}}.Build()
+		beta := File{Path: "adv/samepkg_shapes_beta.proto", Package: pkg[1:], GoPackage: gp, Deps: []string{gamma.GetName()}, Msgs: []M{{Name: "Beta", Fields: []F{{Name: "v", Num: 1, Kind: Sint32, Rep: true}, {Name: "s", Num: 2, Kind: String},
+			{Name: "g", Num: 3, Kind: Message, TypeName: pkg + ".Gamma"}, {Name: "ge", Num: 4, Kind: Enum, TypeName: pkg + ".GammaEnum"}},
+			Nested: []M{{Name: "Inner", Fields: []F{{Name: "x", Num: 1, Kind: Fixed32}}}}, Enums: []E{{Name: "Kind", Values: []EV{{"KIND_ZERO", 0}, {"KIND_ONE", 1}, {"KIND_BIG", 2147483647}}}}}},
+			Enums: []E{{Name: "BetaEnum", Values: []EV{{"BETA_ZERO", 0}, {"BETA_ONE", 1}, {"BETA_NEG", -1}}}}}.Build()
+		var fs, oneofMembers []F // protoc wants the members of a oneof declared consecutively
+		n := int32(1)
+		for _, t := range []struct {
+			tag  string
+			kind T
+			name string
+		}{{"b", Message, pkg + ".Beta"}, {"bi", Message, pkg + ".Beta.Inner"}, {"g", Message, pkg + ".Gamma"}, {"gi", Message, pkg + ".Gamma.GIn"},
+			{"be", Enum, pkg + ".BetaEnum"}, {"bk", Enum, pkg + ".Beta.Kind"}, {"ge", Enum, pkg + ".GammaEnum"}, {"gk", Enum, pkg + ".Gamma.GKind"}} {
+			fs = append(fs, F{Name: "s_" + t.tag, Num: n, Kind: t.kind, TypeName: t.name}, F{Name: "r_" + t.tag, Num: n + 1, Kind: t.kind, TypeName: t.name, Rep: true},
+				F{Name: "m_" + t.tag, Num: n + 2, Kind: t.kind, TypeName: t.name, Map: true, KeyKind: []T{String, Int32, Uint64, Bool}[int(n)%4]})
+			oneofMembers = append(oneofMembers, F{Name: "o_" + t.tag, Num: n + 3, Kind: t.kind, TypeName: t.name, Oneof: "pick"})
+			if t.kind == Enum {
+				fs = append(fs, F{Name: "u_" + t.tag, Num: n + 4, Kind: t.kind, TypeName: t.name, Rep: true, Unpacked: true})
+			}
+			n += 5
+		}
+		fs = append(fs, oneofMembers...)
+		alpha := File{Path: "adv/samepkg_shapes_alpha.proto", Package: pkg[1:], GoPackage: gp, Deps: []string{beta.GetName(), gamma.GetName()}, Msgs: []M{{Name: "Alpha", Fields: fs,
+			Nested: []M{{Name: "Sub", Fields: []F{{Name: "b", Num: 1, Kind: Message, TypeName: pkg + ".Beta"}, {Name: "k", Num: 2, Kind: Enum, TypeName: pkg + ".Beta.Kind"}}}}}}}.Build()
+		omega := File{Path: "adv/samepkg_shapes_omega.proto", Package: pkg[1:], GoPackage: gp, Deps: []string{alpha.GetName()}, Msgs: []M{{Name: "Omega", Fields: []F{{Name: "a", Num: 1, Kind: Message, TypeName: pkg + ".Alpha"},
+			{Name: "subs", Num: 2, Kind: Message, TypeName: pkg + ".Alpha.Sub", Rep: true}}}}}.Build()
+		add(advFD("adv_same_package_shapes", "four files of one Go package, importers' names sorting before (and one after) their imports; imported messages / enums in every shape", ExpFiles,
+			[]string{gamma.GetName(), beta.GetName(), alpha.GetName(), omega.GetName()}, gamma, beta, alpha, omega))
+	}
+	{
 		// a file whose message has a field the plugin renames (`type` -> Type_) generated together with an unrelated file,
 		// in another Go package, that has a field literally named `type_` (and other already-suffixed names): whatever the
 		// plugin remembers about renames must not leak from one file into another
